@@ -156,7 +156,12 @@ def run(ctx):
                    "purely numeric names, paddings, repeats, two brackets -- plus generated pairs; expected = expansion "
                    "of W minus the names of the expansion of X) and WCOLL / `-w ^FILE` (one expression per line; pinned "
                    "line lengths k*(LINEBUFSIZE-1)-1 and neighbours, LINEBUFSIZE read from the tree; expected = the "
-                   "lines' expansions in order); expected = AST-level expansion "
+                   "lines' expansions in order); STATE LEFT OVER (errno tested but never cleared, the previous bracket's "
+                   "range table, the first element's width): every pinned text as the word after each poisoning word "
+                   "(20+ digit suffix, purely numeric overflow, bracket with more ranges, long bracket, wide first "
+                   "element) in one hostlist_create, in the call AFTER hostlist_create(poison) incl. failed calls "
+                   "(harness op sprobe: nothing reset in between), look-up / -x / file lines / -w words after an "
+                   "ERANGE name; expected = AST-level expansion "
                    "(Python) = string-level expansion (Lean spec); non-trivial = expansion has >= 2 hosts and the text "
                    ">= 1 bracket group; distinct = distinct rendered text"}
     dist = {"wellformed": 0, "valid-from-malformed-stream": 0, "exhaustive": 0, "corpus": 0, "cli": 0, "nth": 0,
